@@ -26,6 +26,11 @@ const (
 type fsym struct {
 	cls fclass
 	t   *Term // real term (finite only)
+	// fromInt: this float is exactly the conversion of that integer of at
+	// most 32 bits (such conversions are exact in float64); converting it
+	// back to an integer gives that integer again
+	fromInt       *Term
+	fromIntSigned bool
 }
 
 func toFsym(v value) *fsym {
@@ -246,7 +251,11 @@ func intToFloat(r *run, x *Term, signed bool) value {
 		// a computed integer: give it an unconstrained twin (over-approximation)
 		r.note("int->float conversion of a computed symbolic integer over-approximated by an arbitrary real")
 	}
-	return &fsym{cls: fFinite, t: r.fround(r.twin(x))}
+	f := &fsym{cls: fFinite, t: r.fround(r.twin(x))}
+	if x.S.W <= 32 {
+		f.fromInt, f.fromIntSigned = x, signed
+	}
+	return f
 }
 
 func floatToInt(r *run, x value, w int, signed bool) value {
@@ -262,6 +271,20 @@ func floatToInt(r *run, x value, w int, signed bool) value {
 		return mkBV(w, uint64(ff))
 	}
 	fs := x.(*fsym)
+	if fs.fromInt != nil && fs.cls == fFinite {
+		// exact round trip of a small integer (value preserved when it fits;
+		// an unsigned source of at most 32 bits always fits a wider target,
+		// and a narrower target sees Go's conversion of the integer part)
+		src := fs.fromInt
+		switch {
+		case src.S.W == w:
+			if fs.fromIntSigned == signed || !fs.fromIntSigned {
+				return src
+			}
+		case src.S.W < w:
+			return bvResize(src, w, fs.fromIntSigned)
+		}
+	}
 	// Go leaves out-of-range conversions implementation-defined (amd64 yields
 	// the minimum integer); recorded as a fact of the path.
 	if fs.cls != fFinite {
